@@ -121,7 +121,7 @@ SyncZ(p, g, tol) == Near(p.z, g.z, tol)
 SyncMode(p, g) == p.abs = g.abs /\ p.unit = g.unit
 
 TravelOK(phs, zprev, ztarget, tol) ==
-    LET zt == Max(zprev, ztarget)
+    LET zt == Max2(zprev, ztarget)
     IN  \A k \in 1..(Len(phs) - 1) :
           MovedXY(phs[k], phs[k + 1]) =>
              /\ Near(phs[k].z, zt, tol)
@@ -199,7 +199,7 @@ GStepActive(cs, ev, q, tol) ==
                                           \/ (c.code = "G92" /\ HasXYZ(c))))
         cyc   == CycleStep(cs, c, g0, g1, isMove)
         scE1  == cs.scE /\ cyc.ok /\ ~anyBig
-        maxret1 == Max(cs.maxret, Ret(g1))
+        maxret1 == Max2(cs.maxret, Ret(g1))
         g10sent == {k \in 1..nout : outs[k].code = "G10"
                                       /\ ~(Seen(outs[k], "P") \/ Seen(outs[k], "L"))}
         g10p1 == IF g10sent = {} THEN cs.g10p
